@@ -560,3 +560,7 @@ mod tests {
         );
     }
 }
+
+#[cfg(all(test, pendulum_project_ntpd_rs_verif))]
+#[path = "/verif/harness/statime-base/hook_time_types.rs"]
+mod verif_hook;
